@@ -11,6 +11,15 @@ Definition is_batch (p : prog) (w : nat) : bool :=
   | None => false
   end.
 
+Definition promise_item (p : prog) (w : nat) : bool :=
+  match lookup p w with Some it => is_promise (it_kind it) | None => false end.
+
+Lemma key_is_promise p k w : key_is p k w = true -> promise_item p w = true.
+Proof.
+  unfold key_is, promise_item. destruct (lookup p w) as [it|]; [|discriminate].
+  destruct (it_kind it); auto; discriminate.
+Qed.
+
 Lemma key_is_is_batch p k w : key_is p k w = true -> is_batch p w = true.
 Proof.
   unfold key_is, is_batch. destruct (lookup p w) as [it|]; [|discriminate].
@@ -115,7 +124,8 @@ Record Hist (p : prog) (tr : list label) (m : mon) : Prop := mkHist {
   h_fl_created : forall w, In w (flushed tr) -> In w (created_of tr);
   h_dlv_in : forall w, m_dlv m w <> None <-> In w (deliveries tr);
   h_dlv_nodup : NoDup (deliveries tr);
-  h_produced : forall w r, m_dlv m w = Some r -> forall T, incl tr T -> produced p T w r
+  h_produced : forall w r, m_dlv m w = Some r -> forall T, incl tr T -> produced p T w r;
+  h_dlv_promise : forall w, m_dlv m w <> None -> promise_item p w = true
 }.
 
 Lemma hist_init p : Hist p [] mon_init.
@@ -137,7 +147,7 @@ Lemma hist_silent p tr m l m' :
   m_created m' = m_created m -> m_unflushed m' = m_unflushed m -> m_dlv m' = m_dlv m ->
   Hist p (tr ++ [l]) m'.
 Proof.
-  intros [H1 H2 H3 H4 H5 H6 H7 H8] SL E1 E2 E3.
+  intros [H1 H2 H3 H4 H5 H6 H7 H8 H9] SL E1 E2 E3.
   assert (C : created_of (tr ++ [l]) = created_of tr) by (rewrite created_of_snoc; destruct l; try tauto; apply app_nil_r).
   assert (F : flushed (tr ++ [l]) = flushed tr) by (rewrite flushed_snoc; destruct l; try tauto; apply app_nil_r).
   assert (D : deliveries (tr ++ [l]) = deliveries tr) by (rewrite deliveries_snoc; destruct l; try tauto; apply app_nil_r).
@@ -150,7 +160,7 @@ Proof.
   intros HH H.
   destruct l as [w|w|w| |k its| |w|c|w|w| | |w]; simpl in H.
   - (* create *)
-    destruct HH as [H1 H2 H3 H4 H5 H6 H7 H8].
+    destruct HH as [H1 H2 H3 H4 H5 H6 H7 H8 H9].
     destruct (lookup p w) as [it|] eqn:L; [|discriminate].
     destruct (mem w (m_created m)) eqn:MC; [discriminate|]. inversion H; subst m'; clear H.
     apply mem_false in MC. rewrite H1 in MC.
@@ -170,7 +180,7 @@ Proof.
   - inversion H; subst m'. apply (hist_silent p tr m); simpl; auto.
   - destruct (m_round m); [discriminate|]. inversion H; subst m'. apply (hist_silent p tr m); simpl; auto.
   - (* flush *)
-    destruct HH as [H1 H2 H3 H4 H5 H6 H7 H8].
+    destruct HH as [H1 H2 H3 H4 H5 H6 H7 H8 H9].
     destruct (m_round m) as [ks|]; [|discriminate]. destruct (mem k ks); [discriminate|].
     destruct (negb (list_eqb its (filter (key_is p k) (m_unflushed m)))) eqn:E1; [discriminate|].
     apply negb_false_iff, list_eqb_eq in E1. destruct (is_nil its) eqn:E2; [discriminate|].
@@ -198,25 +208,30 @@ Proof.
     + intros w r X T I. apply incl_snoc in I as [I IL]. destruct (in_dec Nat.eq_dec w its) as [Y|Y].
       * destruct (In_nth_error _ _ Y) as [j Hj]. rewrite (PO j w Hj) in X. eapply pr_batch; eauto.
       * rewrite (UN w Y) in X. eauto.
+    + intros w X. destruct (in_dec Nat.eq_dec w its) as [Y|Y].
+      * apply INI in Y as [_ [Y _]]. eapply key_is_promise; eauto.
+      * rewrite (UN w Y) in X. auto.
   - inversion H; subst m'. apply (hist_silent p tr m); simpl; auto.
   - inversion H; subst m'. apply (hist_silent p tr m); simpl; auto.
   - inversion H; subst m'. apply (hist_silent p tr m); simpl; auto.
   - inversion H; subst m'. apply (hist_silent p tr m); simpl; auto.
   - (* recv *)
-    destruct HH as [H1 H2 H3 H4 H5 H6 H7 H8].
+    destruct HH as [H1 H2 H3 H4 H5 H6 H7 H8 H9].
     destruct (m_round m) as [ks|]; [|discriminate]. destruct (lookup p w) as [it|] eqn:L; [|discriminate].
     destruct (m_dlv m w) eqn:DW; [discriminate|].
     assert (EX : exists r, m' = mkMon (m_created m) (m_unflushed m) (Some ks) (m_call m) (upd (m_dlv m) w (Some r))
                                       (m_taken m) (m_abandoned m) /\
-                           forall T, incl tr T -> produced p T w r).
+                           (forall T, incl tr T -> produced p T w r) /\ promise_item p w = true).
     { destruct (it_kind it) as [| |k|inn] eqn:K; try discriminate.
-      - inversion H; subst m'. eexists; split; [reflexivity|]. intros T I. eapply pr_go; eauto.
+      - inversion H; subst m'. eexists; split; [reflexivity|]. split; [|unfold promise_item; now rewrite L, K].
+        intros T I. eapply pr_go; eauto.
       - destruct (chain_ref (p_cfun p w) (m_dlv m) inn []) as [r|] eqn:CR; [|discriminate].
-        inversion H; subst m'. eexists; split; [reflexivity|]. intros T I.
+        inversion H; subst m'. eexists; split; [reflexivity|]. split; [|unfold promise_item; now rewrite L, K].
+        intros T I.
         apply chain_ref_cases in CR as [[vals [F E]]|[s1 [q [s2 [vals [e [E1 [F [DE E2]]]]]]]]].
         + subst r. simpl. eapply pr_chain_ok; eauto. eapply Forall2_imp; [|exact F]. intros a b X. simpl in X. eauto.
         + subst r. eapply pr_chain_err; eauto. eapply Forall2_imp; [|exact F]. intros a b X. simpl in X. eauto. }
-    destruct EX as [r [-> PR]]. clear H.
+    destruct EX as [r [-> [PR PI]]]. clear H.
     assert (NI : ~ In w (deliveries tr)) by (intro X; apply H6 in X; congruence).
     assert (C : created_of (tr ++ [LRecv w]) = created_of tr) by (rewrite created_of_snoc; apply app_nil_r).
     assert (F : flushed (tr ++ [LRecv w]) = flushed tr) by (rewrite flushed_snoc; apply app_nil_r).
@@ -229,6 +244,7 @@ Proof.
       destruct (upd_cases (m_dlv m) w (Some r) w0) as [[-> E]|[N E]]; rewrite E in X.
       * inversion X; subst. auto.
       * eauto.
+    + intros w0 X. destruct (upd_cases (m_dlv m) w (Some r) w0) as [[-> E]|[N E]]; rewrite E in X; auto.
   - (* idle exit *)
     destruct (m_round m); [|discriminate]. destruct (is_nil (m_unflushed m)); [|discriminate].
     inversion H; subst m'. apply (hist_silent p tr m); simpl; auto.
@@ -278,7 +294,7 @@ Section Round.
 Variable p : prog.
 Hypothesis WF : wf_items p = true.
 Hypothesis BF : bfun_ok p.
-Variable fx : bool.
+Variable fx : variant.
 
 Lemma step_in_idle s l s' :
   in_idle (st_phase s) -> step fx p s l = Some s' -> l <> LIdleExit ->
@@ -321,7 +337,8 @@ Proof.
   - unfold do_arrive in H. destruct (st_gor s w); try discriminate. inversion H; subst s'. simpl. auto.
   - unfold do_recv in H. destruct (st_gor s w); try discriminate. destruct (st_chan s w); [discriminate|].
     cbv zeta in H. destruct (st_phase s) eqn:PH; try discriminate.
-    + destruct (is_nil (st_pend s)); [|discriminate]. destruct (st_chained s w); inversion H; subst s'; simpl; rewrite ?PH; auto.
+    + destruct (is_nil (st_pend s)); [|discriminate].
+      destruct (st_chained s w); [destruct (v_loop fx)|]; inversion H; subst s'; simpl; rewrite ?PH; auto.
     + inversion H; subst s'. simpl. rewrite PH. auto.
   - congruence.
   - unfold do_end in H. destruct HI as [E|[E|E]]; rewrite E in H; discriminate.
